@@ -46,7 +46,7 @@ def units_for(pid):
 
 def run_verus(path, extra=()):
     cmd = ['verus', path, '--triggers-mode', 'silent', '--output-json', '--time', '--error-format=json',
-           '--num-threads', '16', '--multiple-errors', '6'] + list(extra)
+           '--num-threads', '16', '--multiple-errors', '6'] + (list(extra) if '--rlimit' in extra else ['--rlimit', '30'] + list(extra))
     t0 = time.time()
     p = subprocess.run(cmd, stdout=subprocess.PIPE, stderr=subprocess.PIPE, text=True, cwd=BUILD)
     wall = time.time() - t0
@@ -160,6 +160,11 @@ class UnitRun:
             if self.compile_errors or not newq:
                 break
         self.attribute()
+        if self.undecided and '--rlimit' not in self.extra and any('limit' in u['message'] for u in self.undecided):
+            # a resource-limit hit is not an answer: retry once with a much larger limit
+            self.extra = list(self.extra) + ['--rlimit', '200']
+            self.vr = run_verus(self.path, self.extra)
+            self.attribute()
         return self
 
     def twin_at(self, line):
